@@ -30,7 +30,7 @@ pub fn decode_event(out: &mut Out, name: &str, rows: &[Vec<usize>], n: usize, ll
 pub fn generate(a: &Args) {
     let mut out = Out::create(&a.out);
     let mut rng = Rng::new(a.seed ^ 0xC01);
-    let per_impl = if is_thorough(a) { 2500 } else { 130 };
+    let per_impl = if is_thorough(a) { 6000 } else { 130 };
     let limits = [0usize, 1, 2, 5, 50];
     for (k, name) in NAMES.iter().enumerate() {
         for i in 0..per_impl {
